@@ -468,19 +468,22 @@ def supply(subject, template, call_index, tokens_before, used_before, tokens, na
         step.raised = True
         step.problem = ("raised-%s" % type(err).__name__,
                         "supplying %s raised %s: %s" % (
-                            show_call(tokens, names), type(err).__name__, err))
+                            show_call(tokens, names, tokens_before if call_index else None, used_before), type(err).__name__, err))
         return step
     if step.expected and not step.raised:
         step.problem = ("accepts", "%s accepted although the arguments can never bind (%s)"
-                        % (show_call(tokens, names), ", ".join(step.expected)))
+                        % (show_call(tokens, names, tokens_before if call_index else None, used_before), ", ".join(step.expected)))
     elif step.raised and not step.expected:
         step.problem = ("rejects", "%s rejected with TypeError although the arguments can "
-                        "bind" % show_call(tokens, names))
+                        "bind" % show_call(tokens, names, tokens_before if call_index else None, used_before))
     return step
 
 
-def show_call(tokens, names):
-    return "(%s)" % ", ".join([str(t) for t in tokens] + ["%s=..." % n for n in names])
+def show_call(tokens, names, tokens_before=None, names_before=()):
+    text = "(%s)" % ", ".join([str(t) for t in tokens] + ["%s=..." % n for n in names])
+    if tokens_before is None:
+        return ".s" + text
+    return show_call(tokens_before, names_before) + text
 
 
 def complete(subject, template, tokens, names):
